@@ -116,6 +116,7 @@ type Universe struct {
 	Structs []StructDef `json:"structs"`
 	Root    *Type       `json:"root"`
 	Extra   []*Type     `json:"extra,omitempty"` // further root types, exposed as methods M0, M1, ... of the service
+	ArgID   int16       `json:"arg_id,omitempty"` // id of the argument of method Call (0: the usual 1)
 }
 
 func (u *Universe) Struct(name string) *StructDef {
